@@ -25,6 +25,17 @@ CHECKS = {
                 "(pv/refinst.py), CrossHair models, transform() executed natively.",
         "technique": "bounded symbolic execution (CrossHair + z3) of probing() vs an independent trace twin",
     },
+    "C06": {
+        "category": "model_checking",
+        "text": "Bounded symbolic execution of real probes on every meta-variable (#enter/#exit/#value/#error/#loop_X/#endloop_X/"
+                "#yield/#receive, plus wrapper probes with ! and !!) against an independent meta twin; control flow (trip counts, "
+                "which iteration breaks/continues/returns/raises, return in finally) and generator driver sequences "
+                "(next/send/throw/close) are symbolic; streams must be equal and properly nested; path trees exhausted.",
+        "design_ref": "DESIGN.md section 4, C06",
+        "note": "Program dimension enumerated (template catalogue); exit by garbage collection is not driven; GeneratorExit "
+                "#error events are ignored on both sides. Trusted: the meta twin, CrossHair models, native transform().",
+        "technique": "bounded symbolic execution (CrossHair + z3) of meta-variable probes vs an independent meta twin",
+    },
     "C12": {
         "category": "model_checking",
         "text": "Unbounded-integer SMT proof (z3, cross-checked by cvc5) that the formulas translated from the "
